@@ -142,6 +142,13 @@ def violate_per_slot(res, kind, detail, replay, features):
         res.violate(Violation("C05", kind, dict(detail, differing_slot=slot), replay=replay, features=f))
 
 
+def zero_signs(mp):
+    """Sign of every zero valued field (0, 0.0 -> +1; -0.0 -> -1): equality cannot see it."""
+    return tuple(sorted(
+        (k, math.copysign(1, float(v)) if (v is not None and v == 0) else 0) for k, v in mp.fields.items()
+    ))
+
+
 class Injectivity:
     """decoded point -> first original that produced it."""
 
@@ -149,8 +156,8 @@ class Injectivity:
         self.table = {}
 
     def add(self, res, orig, dec, where):
-        key = (dec.canon(), tuple(sorted((k, math.copysign(1, v) if isinstance(v, float) and v == 0 else 0) for k, v in dec.fields.items())))
-        okey = (orig.canon(), tuple(sorted((k, math.copysign(1, v) if isinstance(v, float) and v == 0 else 0) for k, v in orig.fields.items())))
+        key = (dec.canon(), zero_signs(dec))
+        okey = (orig.canon(), zero_signs(orig))
         prev = self.table.get(key)
         res.count("injectivity_entries")
         if prev is None:
